@@ -404,8 +404,9 @@ func c02(r *engine.Report, p *engine.Program) {
 		r.Check("R3-delivery", "handleMessageData: local delivery only when md.ToNode == s.nodeID (exact)", snd1.Instr.Pos(), okEq,
 			"the delivery is unreachable once the edges md.ToNode == s.nodeID (plain string equality) are removed", "local delivery is not guarded by exact equality of the destination node with the local node ID: a node can claim packets addressed to a different ID (e.g. one differing only in case)")
 		// dispatchReservedService likewise
-		for _, ci := range callsTo(hmd, "(*netceptor.Netceptor).dispatchReservedService") {
-			okD := len(eq) > 0 && engine.Reach(hmd, nil, engine.EdgeSet{}.Add(eq...), nil, func(in ssa.Instruction) bool { return in == ssa.Instruction(ci) }) == nil
+		for _, ci := range reservedDispatchSites(p, hmd) {
+			ci := ci
+			okD := len(eq) > 0 && engine.Reach(hmd, nil, engine.EdgeSet{}.Add(eq...), nil, func(in ssa.Instruction) bool { return in == ci }) == nil
 			r.Check("R3-delivery", "handleMessageData: reserved services only for md.ToNode == s.nodeID", ci.Pos(), okD, "same guard", "reserved services are dispatched for packets not addressed to this node")
 		}
 	}
@@ -535,9 +536,36 @@ func framerRules(r *engine.Report, p *engine.Program) {
 	mr := p.Func("(*framer.framer).messageReady")
 	gm := p.Func("(*framer.framer).GetMessage")
 	rd := p.Func("(*framer.framer).RecvData")
-	if sd == nil || mr == nil || gm == nil || rd == nil {
+	if sd == nil || gm == nil || rd == nil {
 		r.Broken("framer functions not found")
 		return
+	}
+	// the readers of the length prefix: the private helper messageReady on the pinned tree; when it
+	// is inlined, every framer method that decodes the prefix itself
+	var readers []*ssa.Function
+	if mr != nil {
+		readers = []*ssa.Function{mr}
+	} else {
+		for _, fn := range p.Funcs() {
+			if inPkg(fn, "framer") && !engine.IsMock(fn) {
+				for _, ci := range engine.CallsIn(fn) {
+					if strings.HasSuffix(engine.CalleeName(ci.Common()), "littleEndian).Uint16") {
+						readers = append(readers, fn)
+						break
+					}
+				}
+			}
+		}
+		inGM := false
+		for _, f := range readers {
+			if f == gm {
+				inGM = true
+			}
+		}
+		if !inGM {
+			r.Broken("framer: neither messageReady nor a length decode in GetMessage found")
+			return
+		}
 	}
 	// writer: PutUint16 on buf[0:2] with littleEndian, copy at buf[2:]
 	wOK, rOK := false, false
@@ -560,37 +588,77 @@ func framerRules(r *engine.Report, p *engine.Program) {
 			}
 		}
 	}
-	for _, ci := range engine.CallsIn(mr) {
-		if strings.HasSuffix(engine.CalleeName(ci.Common()), "littleEndian).Uint16") {
-			if sl, ok := engine.Unwrap(ci.Common().Args[1]).(*ssa.Slice); ok {
+	rOK = true
+	nR := 0
+	for _, rdr := range readers {
+		for _, ci := range engine.CallsIn(rdr) {
+			if strings.HasSuffix(engine.CalleeName(ci.Common()), "littleEndian).Uint16") {
+				nR++
+				sl, ok := engine.Unwrap(ci.Common().Args[1]).(*ssa.Slice)
+				if !ok {
+					rOK = false
+					continue
+				}
 				hi, ok2 := engine.ConstInt(sl.High)
-				rOK = ok2 && hi == 2 && sl.Low == nil
+				if !(ok2 && hi == 2 && sl.Low == nil) {
+					rOK = false
+				}
 			}
 		}
 	}
+	rOK = rOK && nR > 0
 	r.Check("R2-framer", "framer: length prefix is 2 bytes little-endian on both sides, payload follows", sd.Pos(), wOK && rOK && copyAt2,
 		"SendData writes LittleEndian.PutUint16(buf[0:2]) and the payload at buf[2:]; messageReady reads LittleEndian.Uint16(buffer[:2])", "framer writer and reader disagree on prefix width or byte order")
 	// readiness: len(buffer) >= size+2 ; GetMessage returns [2:size+2] and keeps [size+2:]
-	okReady := false
-	for _, b := range mr.Blocks {
-		for _, in := range b.Instrs {
-			if bo, ok := in.(*ssa.BinOp); ok && (bo.Op == token.GEQ || bo.Op == token.LEQ) {
-				var sum ssa.Value = bo.Y
-				if bo.Op == token.LEQ {
-					sum = bo.X
-				}
-				if add, ok := sum.(*ssa.BinOp); ok && add.Op == token.ADD {
-					if k, ok := engine.ConstInt(add.Y); ok && k == 2 {
-						okReady = true
+	// readyCmp: v is `len(..) >= x+2` (or an equivalent spelling); holdsOnTrue tells its polarity
+	readyCmp := func(v ssa.Value) (matched, holdsOnTrue bool) {
+		bo, ok := v.(*ssa.BinOp)
+		if !ok {
+			return false, false
+		}
+		var sum ssa.Value
+		switch bo.Op {
+		case token.GEQ: // len >= sum
+			sum, holdsOnTrue = bo.Y, true
+		case token.LEQ: // sum <= len
+			sum, holdsOnTrue = bo.X, true
+		case token.LSS: // len < sum
+			sum, holdsOnTrue = bo.Y, false
+		case token.GTR: // sum > len
+			sum, holdsOnTrue = bo.X, false
+		default:
+			return false, false
+		}
+		if add, ok := sum.(*ssa.BinOp); ok && add.Op == token.ADD {
+			if k, ok := engine.ConstInt(add.Y); ok && k == 2 {
+				return true, holdsOnTrue
+			}
+		}
+		return false, false
+	}
+	okReady := true
+	for _, rdr := range readers {
+		found := false
+		for _, b := range rdr.Blocks {
+			for _, in := range b.Instrs {
+				if v, isV := in.(ssa.Value); isV {
+					if m, _ := readyCmp(v); m {
+						found = true
 					}
 				}
 			}
+		}
+		if !found {
+			okReady = false
 		}
 	}
 	var slices []*ssa.Slice
 	for _, b := range gm.Blocks {
 		for _, in := range b.Instrs {
 			if sl, ok := in.(*ssa.Slice); ok {
+				if hi, isC := engine.ConstInt(sl.High); isC && hi == 2 && sl.Low == nil {
+					continue // the prefix handed to the length decoder (inlined messageReady)
+				}
 				slices = append(slices, sl)
 			}
 		}
@@ -609,12 +677,17 @@ func framerRules(r *engine.Report, p *engine.Program) {
 	}
 	// guarded by ready
 	guard := false
-	for _, ci := range callsTo(gm, "(*framer.framer).messageReady") {
-		rdy := callResult(ci.(*ssa.Call), 1)
-		if len(rdy) == 1 {
-			tE, _ := engine.CondEdges(gm, func(c ssa.Value) (bool, bool) { return c == rdy[0], true })
-			guard = len(tE) > 0 && len(slices) > 0 && engine.Reach(gm, nil, engine.EdgeSet{}.Add(tE...), nil, func(in ssa.Instruction) bool { return in == ssa.Instruction(slices[0]) }) == nil
+	if mr != nil {
+		for _, ci := range callsTo(gm, "(*framer.framer).messageReady") {
+			rdy := callResult(ci.(*ssa.Call), 1)
+			if len(rdy) == 1 {
+				tE, _ := engine.CondEdges(gm, func(c ssa.Value) (bool, bool) { return c == rdy[0], true })
+				guard = len(tE) > 0 && len(slices) > 0 && engine.Reach(gm, nil, engine.EdgeSet{}.Add(tE...), nil, func(in ssa.Instruction) bool { return in == ssa.Instruction(slices[0]) }) == nil
+			}
 		}
+	} else {
+		tE, _ := engine.CondEdges(gm, readyCmp)
+		guard = len(tE) > 0 && len(slices) > 0 && engine.Reach(gm, nil, engine.EdgeSet{}.Add(tE...), nil, func(in ssa.Instruction) bool { return in == ssa.Instruction(slices[0]) }) == nil
 	}
 	r.Check("R2-framer", "framer: a message is cut out only when complete, as [2:size+2], keeping [size+2:]", gm.Pos(), okReady && okGet && guard,
 		"messageReady requires len(buffer) >= size+2; GetMessage slices only on its ready edge, returns buffer[2:size+2] and keeps buffer[size+2:]", "the framer can cut a message before it is complete, or returns/keeps the wrong byte ranges")
